@@ -12,6 +12,7 @@ LEVEL_TEXT = (
     'process stalls, clock drift and sub-second wall steps, all on the virtual clock; oracle over the virtual timestamps of '
     'KEEPALIVE / NOTIFICATION bytes with tolerances measured per run (read poll + pass cost + injected stalls).'
     ' `local-as auto`; an optional warm-up session negotiated with another hold time.'
+    ' The script may end in the first octets of a message (a read in progress is no message); the OPEN may arrive in two pieces around the open-wait threshold.'
 )
 LEVEL_NOTE = 'trusts: the virtual clocks (time.time patched to wall = epoch + mono*(1+drift) + step), simulated TCP delivery times; large wall-clock steps are deliberately outside the judged fault space'
 DESIGN_REF = 'DESIGN.md section 5, C12'
